@@ -222,6 +222,21 @@ pub fn c04(ep: &EnergyPerformance) -> Option<String> {
 
 /// C13 on one result (k_exp = 0): rer == ren/tot in [0,1]; nesting 0 <= onst <= nrb <= rer; and the (assumed) contract of
 /// ren_onst_nrb: the two perimeter parts equal the sums the function documents
+/// the executable reading of spec/rel_c14.rs::c14_shape (y = nren, co2) on the normalized regulatory factor set of a location
+pub fn c14_factor_shape(loc: &str) -> Value {
+    let w = crate::factors(loc);
+    let el = Carrier::ELECTRICIDAD;
+    let get = |s: Source, d: Dest, st: Step| w.wdata.iter().find(|f| f.carrier == el && f.source == s && f.dest == d && f.step == st).map(|f| (f.nren, f.co2)).unwrap_or((0.0, 0.0));
+    let g = get(Source::RED, Dest::SUMINISTRO, Step::A);
+    let mut bad: Vec<String> = vec![];
+    if g.0 < 0.0 || g.1 < 0.0 { bad.push("negative grid factor".into()); }
+    if get(Source::INSITU, Dest::SUMINISTRO, Step::A) != (0.0, 0.0) { bad.push("on-site electricity delivered with non-renewable energy or emissions".into()); }
+    for d in [Dest::A_NEPB, Dest::A_RED] {
+        if get(Source::INSITU, d, Step::A) != (0.0, 0.0) { bad.push(format!("export {:?} step A carries non-renewable energy or emissions", d)); }
+        if get(Source::INSITU, d, Step::B) != g { bad.push(format!("export {:?} step B is not the grid factor", d)); }
+    }
+    json!({"hypothesis": "c14_shape (premise of thm_c14_nren_co2)", "loc": loc, "holds": bad.is_empty(), "violations": bad})
+}
 /// the executable reading of spec/rel_c13.rs::c13_factors on the normalized regulatory factor set of a location
 pub fn c13_factor_shape(loc: &str) -> Value {
     let w = crate::factors(loc);
@@ -379,6 +394,10 @@ pub fn check(pid: &str, seed: u64) -> Value {
     if pid == "C13" {
         // hypothesis witness of thm_c13_range (unit rel): the shape c13_factors evaluated on the real regulatory tables - recorded, never a verdict
         for loc in ["PENINSULA", "BALEARES", "CANARIAS", "CEUTAMELILLA"] { samples.push(c13_factor_shape(loc)); }
+    }
+    if pid == "C14" {
+        // hypothesis witness of thm_c14_nren_co2 (unit rel): c14_shape evaluated on the real regulatory tables - recorded, never a verdict
+        for loc in ["PENINSULA", "BALEARES", "CANARIAS", "CEUTAMELILLA"] { samples.push(c14_factor_shape(loc)); }
     }
     let fail = |failures: &mut Vec<Value>, steps: &[B], k: f32, area: f32, lm: bool, what: String| {
         let clause = pid.to_string();
